@@ -114,6 +114,7 @@ class Sim:
         self.stall_budget = stall_budget
         self.stall_used = 0.0
         self.draining = False
+        self.in_sched = False  # True while scheduler/monitor code runs (line events must not re-enter)
         self.main_done_at = None
         self.max_threads = 0
 
@@ -186,6 +187,16 @@ class Sim:
         if self.aborting:
             self._abort_step(me)
             return
+        self.in_sched = True
+        try:
+            self._reschedule_inner(me)
+        finally:
+            # whoever holds the baton when control returns to user code clears the flag
+            # (a finished thread no longer holds it: the thread it handed over to clears it)
+            if me.state != DONE:
+                self.in_sched = False
+
+    def _reschedule_inner(self, me):
         self.steps += 1
         heartbeat['t'] = _real_monotonic()
         if self.on_step is not None:
@@ -329,6 +340,7 @@ class Sim:
 
         def boot():
             rec.gate.acquire()  # wait for first turn
+            self.in_sched = False
             rec.ident = _real_get_ident()
             _by_ident[rec.ident] = rec
             try:
@@ -558,6 +570,27 @@ def pct_chooser(prios, change_points, stall_points=()):
     return choose
 
 
+def sparse_chooser(pre):
+    """pre: list of [branching index, choice>=1]; default policy everywhere else"""
+    table = {}
+    for pos, ch in pre:
+        table.setdefault(pos, ch)
+    idx = [0]
+
+    def choose(sim, me, enabled, timed):
+        i = idx[0]
+        idx[0] += 1
+        v = table.get(i)
+        if v is None:
+            return default_choice(me, enabled)
+        opts = list(enabled)
+        if timed:
+            opts.append('TIME')
+        return opts[(v - 1) % len(opts)]
+
+    return choose
+
+
 def make_chooser(sched):
     """sched is a JSON-able dict produced by vf.sched_strategies."""
     kind = sched.get('kind', 'default')
@@ -565,6 +598,8 @@ def make_chooser(sched):
         return tape_chooser([])
     if kind == 'tape':
         return tape_chooser(sched['tape'])
+    if kind == 'sparse':
+        return sparse_chooser(sched['pre'])
     if kind == 'pct':
         return pct_chooser(sched['prios'], sched['changes'], sched.get('stalls', ()))
     raise ValueError(kind)
